@@ -606,6 +606,19 @@ func (pr *printer) listMatches(s psym, g string) (bool, string) {
 	return single && rec, ""
 }
 
+type prodInfo struct {
+	T     *types.Named
+	Syms  []psym
+	Prod  *Production
+	Fn    *ssa.Function
+	OpenL bool
+	OpenR bool
+}
+
+// printInfosCache: print productions of the last analysed program, per category NT
+// (filled by runPrintGrammar, reused by R-PRINT-SLOTS).
+var printInfosCache = map[string][]*prodInfo{}
+
 func runPrintGrammar(p *Program, r *RuleResult) {
 	st, err := extractScanTable(p)
 	if err != nil {
@@ -633,14 +646,6 @@ func runPrintGrammar(p *Program, r *RuleResult) {
 			}
 		}
 		impls := p.Implementers(cat.Iface)
-		type prodInfo struct {
-			T     *types.Named
-			Syms  []psym
-			Prod  *Production
-			Fn    *ssa.Function
-			OpenL bool
-			OpenR bool
-		}
 		var infos []*prodInfo
 		for _, T := range impls {
 			fn := p.Method(T, "String")
@@ -677,6 +682,7 @@ func runPrintGrammar(p *Program, r *RuleResult) {
 			pi.OpenR = len(syms) > 0 && syms[len(syms)-1].Kind == symChild
 			infos = append(infos, pi)
 		}
+		printInfosCache[cat.NT] = infos
 		// triples
 		nTriples := 0
 		for _, par := range infos {
